@@ -480,3 +480,401 @@ Proof.
       lia. }
   rewrite rules_loop_nl. reflexivity.
 Qed.
+
+(* ---------- md_roundtrip ---------- *)
+
+Lemma md_deps_app a b : md_deps (a ++ b) = md_deps a ++ md_deps b.
+Proof. unfold md_deps. apply flat_map_app. Qed.
+
+Lemma md_deps_dep_events ps : md_deps (dep_events ps) = ps.
+Proof.
+  induction ps as [|p ps IH]; [reflexivity|].
+  unfold md_deps, dep_events in *. cbn [map flat_map app]. rewrite IH. reflexivity.
+Qed.
+
+Lemma md_write_len t ps sep : (1 <= length (md_write t ps sep))%nat.
+Proof. unfold md_write. rewrite !app_length. cbn [length]. lia. Qed.
+
+(* the exact callback sequence for a written one-rule file *)
+Lemma md_parse_write ign t ps sep :
+  wf_target t = true -> forallb wf_path ps = true ->
+  md_parse ign (md_write t ps sep) = RuleStart (md_escape t) t :: dep_events ps ++ [RuleEnd].
+Proof.
+  intros Ht Hps. unfold md_parse.
+  pose proof (md_write_len t ps sep) as Hl.
+  pose proof (rules_loop_write (length (md_write t ps sep)) ign (length (md_write t ps sep)) t ps sep [] Ht Hps) as H.
+  rewrite app_nil_r in H. rewrite H.
+  destruct ign; [reflexivity|].
+  destruct (length (md_write t ps sep)) as [|n]; [lia | reflexivity].
+Qed.
+
+Theorem md_roundtrip : forall target paths sep,
+  wf_target target = true -> forallb wf_path paths = true ->
+  md_deps (md_parse false (md_write target paths sep)) = paths.
+Proof.
+  intros t ps sep Ht Hps. rewrite (md_parse_write false t ps sep Ht Hps).
+  change (RuleStart (md_escape t) t :: dep_events ps ++ [RuleEnd]) with ([RuleStart (md_escape t) t] ++ dep_events ps ++ [RuleEnd]).
+  rewrite !md_deps_app, md_deps_dep_events. cbn. apply app_nil_r.
+Qed.
+
+(* no error is reported for a written file *)
+Lemma md_has_error_dep_events ps tl : md_has_error (dep_events ps ++ tl) = md_has_error tl.
+Proof. induction ps as [|p ps IH]; [reflexivity | exact IH]. Qed.
+
+Theorem md_write_no_error : forall ign target paths sep,
+  wf_target target = true -> forallb wf_path paths = true ->
+  md_has_error (md_parse ign (md_write target paths sep)) = false.
+Proof.
+  intros ign t ps sep Ht Hps. rewrite (md_parse_write ign t ps sep Ht Hps).
+  unfold md_has_error at 1. cbn [existsb orb]. fold (md_has_error (dep_events ps ++ [RuleEnd])).
+  rewrite md_has_error_dep_events. reflexivity.
+Qed.
+
+(* interior and trailing colons *)
+Lemma forallb_app_true {A} (f : A -> bool) a b : forallb f (a ++ b) = true <-> forallb f a = true /\ forallb f b = true.
+Proof. rewrite forallb_app, andb_true_iff. tauto. Qed.
+
+Theorem md_colon_paths : forall target p q sep,
+  wf_target target = true -> wf_path p = true -> forallb path_byte_ok q = true ->
+  md_deps (md_parse false (md_write target [p ++ 58 :: q] sep)) = [p ++ 58 :: q].
+Proof.
+  intros t p q sep Ht Hp Hq. apply md_roundtrip; [exact Ht|].
+  cbn [forallb]. rewrite andb_true_r.
+  apply wf_path_spec in Hp. destruct Hp as [c [p' [Ep [H58 Hok]]]].
+  apply wf_path_spec. exists c, (p' ++ 58 :: q). split; [rewrite Ep; reflexivity|]. split; [exact H58|].
+  apply forallb_app_true. split; [exact Hok|]. cbn [forallb]. rewrite Hq. reflexivity.
+Qed.
+
+(* ---------- several rules ---------- *)
+
+Definition rule_target (r : bytes * list bytes * sepchoice) : bytes := fst (fst r).
+Definition rule_paths (r : bytes * list bytes * sepchoice) : list bytes := snd (fst r).
+Definition rule_events (r : bytes * list bytes * sepchoice) : list md_event :=
+  RuleStart (md_escape (rule_target r)) (rule_target r) :: dep_events (rule_paths r) ++ [RuleEnd].
+Definition wf_rule (r : bytes * list bytes * sepchoice) : bool :=
+  wf_target (rule_target r) && forallb wf_path (rule_paths r).
+
+Lemma md_write_rules_cons r rs :
+  md_write_rules (r :: rs) = md_write (rule_target r) (rule_paths r) (snd r) ++ md_write_rules rs.
+Proof. reflexivity. Qed.
+
+Lemma rules_loop_write_rules rules : forall F dlen (rest : bytes),
+  forallb wf_rule rules = true ->
+  rules_loop (length rules + F) false dlen (md_write_rules rules ++ rest) =
+  flat_map rule_events rules ++ rules_loop F false dlen rest.
+Proof.
+  induction rules as [|r rs IH]; intros F dlen rest Hr; [reflexivity|].
+  cbn [forallb] in Hr. apply andb_true_iff in Hr. destruct Hr as [Hr Hrs].
+  unfold wf_rule in Hr. apply andb_true_iff in Hr. destruct Hr as [Ht Hps].
+  rewrite md_write_rules_cons, <- app_assoc. cbn [length plus].
+  rewrite (rules_loop_write _ false dlen _ _ (snd r) _ Ht Hps).
+  rewrite (IH F dlen rest Hrs). cbn [flat_map]. unfold rule_events at 2.
+  cbn [app]. rewrite <- !app_assoc. reflexivity.
+Qed.
+
+Lemma md_write_rules_len rules : (length rules <= length (md_write_rules rules))%nat.
+Proof.
+  induction rules as [|r rs IH]; [cbn; lia|].
+  rewrite md_write_rules_cons, app_length. pose proof (md_write_len (rule_target r) (rule_paths r) (snd r)).
+  cbn [length]. lia.
+Qed.
+
+Lemma md_parse_write_rules rules :
+  forallb wf_rule rules = true ->
+  md_parse false (md_write_rules rules) = flat_map rule_events rules.
+Proof.
+  intros Hr. unfold md_parse. pose proof (md_write_rules_len rules) as Hl.
+  set (d := md_write_rules rules) in *.
+  replace (S (length d)) with (length rules + S (length d - length rules))%nat by lia.
+  pose proof (rules_loop_write_rules rules (S (length d - length rules)) (length d) [] Hr) as H.
+  rewrite app_nil_r in H. fold d in H. rewrite H. cbn [rules_loop skip_ws]. apply app_nil_r.
+Qed.
+
+Lemma md_parse_write_rules_first r rs :
+  wf_rule r = true ->
+  md_parse true (md_write_rules (r :: rs)) = rule_events r.
+Proof.
+  intros Hr. unfold wf_rule in Hr. apply andb_true_iff in Hr. destruct Hr as [Ht Hps].
+  unfold md_parse. rewrite md_write_rules_cons.
+  rewrite (rules_loop_write _ true _ _ _ (snd r) _ Ht Hps). reflexivity.
+Qed.
+
+Lemma md_deps_rule_events r : md_deps (rule_events r) = rule_paths r.
+Proof.
+  unfold rule_events.
+  change (RuleStart (md_escape (rule_target r)) (rule_target r) :: dep_events (rule_paths r) ++ [RuleEnd])
+    with ([RuleStart (md_escape (rule_target r)) (rule_target r)] ++ dep_events (rule_paths r) ++ [RuleEnd]).
+  rewrite !md_deps_app, md_deps_dep_events. cbn. apply app_nil_r.
+Qed.
+
+Theorem md_multi_rule : forall rules,
+  forallb wf_rule rules = true ->
+  md_deps (md_parse false (md_write_rules rules)) = flat_map rule_paths rules /\
+  md_deps (md_parse true (md_write_rules rules)) = match rules with [] => [] | r :: _ => rule_paths r end.
+Proof.
+  intros rules Hr. split.
+  - rewrite (md_parse_write_rules rules Hr). clear Hr.
+    induction rules as [|r rs IH]; [reflexivity|].
+    cbn [flat_map]. rewrite md_deps_app, md_deps_rule_events, IH. reflexivity.
+  - destruct rules as [|r rs]; [reflexivity|].
+    cbn [forallb] in Hr. apply andb_true_iff in Hr. destruct Hr as [Hr _].
+    rewrite (md_parse_write_rules_first r rs Hr). apply md_deps_rule_events.
+Qed.
+
+(* ---------- when errors are reported ---------- *)
+
+Lemma md_has_error_in evs c p : In (Err c p) evs -> md_has_error evs = true.
+Proof.
+  intros H. unfold md_has_error. apply existsb_exists. exists (Err c p). split; [exact H | reflexivity].
+Qed.
+
+Lemma md_has_error_ex evs : md_has_error evs = true -> exists c p, In (Err c p) evs.
+Proof.
+  unfold md_has_error. intros H. apply existsb_exists in H. destruct H as [e [Hin He]].
+  destruct e as [r u|r u| |c p|]; try discriminate. exists c, p. exact Hin.
+Qed.
+
+(* A first rule without ':' : the first word of the file is not followed (after blanks and line
+   continuations) by a colon.  Then error 2 is reported at the position where the colon was expected. *)
+Theorem md_error_reported : forall ign data u c2,
+  lex_word (skip_ws data) = (u, c2) ->
+  progressed (skip_ws data) c2 = true ->
+  head_is (skip_nnws c2) 58 = false ->
+  In (Err 2 (pos_of (length data) (skip_nnws c2))) (md_parse ign data).
+Proof.
+  intros ign data u c2 El Hp Hh. unfold md_parse. cbn [rules_loop].
+  destruct (skip_ws data) as [|x t] eqn:E1.
+  - cbn in El. inversion El. subst. discriminate Hp.
+  - rewrite El, Hp. cbn [negb]. rewrite Hh. cbn [negb]. right. left. reflexivity.
+Qed.
+
+(* nothing that the helpers return contains a byte that the argument did not contain *)
+Lemma skip_ws_in x l : In x (skip_ws l) -> In x l.
+Proof.
+  induction l as [|c r IH]; [tauto|]. rewrite skip_ws_cons'.
+  destruct ((c =? 35) || (c =? 32) || (c =? 9) || (c =? 10) || (c =? 13)); [|tauto].
+  intros H. right. exact (IH H).
+Qed.
+
+Lemma skip_nnws_in_aux x n : forall l, (length l <= n)%nat -> In x (skip_nnws l) -> In x l.
+Proof.
+  induction n as [|n IH]; intros l Hn.
+  - destruct l; [tauto | cbn in Hn; lia].
+  - destruct l as [|c r]; [tauto|]. cbn [length] in Hn. cbn [skip_nnws].
+    destruct ((c =? 32) || (c =? 9) || (c =? 13)).
+    + intros H. right. apply (IH r); [lia | exact H].
+    + destruct (c =? 92); [|tauto]. destruct r as [|d r']; [tauto|]. cbn [length] in Hn.
+      destruct (d =? 10).
+      * intros H. right. right. apply (IH r'); [lia | exact H].
+      * destruct (d =? 13); [|tauto]. destruct r' as [|e r'']; [tauto|]. cbn [length] in Hn.
+        destruct (e =? 10); [|tauto]. intros H. right. right. right. apply (IH r''); [lia | exact H].
+Qed.
+
+Lemma skip_nnws_in x l : In x (skip_nnws l) -> In x l.
+Proof. apply (skip_nnws_in_aux x (length l)). lia. Qed.
+
+Lemma lex_word_in_aux x n : forall l, (length l <= n)%nat -> In x (snd (lex_word l)) -> In x l.
+Proof.
+  induction n as [|n IH]; intros l Hn.
+  - destruct l; [cbn; tauto | cbn in Hn; lia].
+  - destruct l as [|c r]; [cbn; tauto|]. cbn [length] in Hn. cbn [lex_word].
+    destruct (c =? 92).
+    + destruct r as [|d r']; [cbn; tauto|]. cbn [length] in Hn.
+      destruct (d =? 10); [cbn [snd]; tauto|].
+      pose proof (IH r' ltac:(lia)) as H.
+      destruct ((d =? 32) || (d =? 35) || (d =? 92)); destruct (lex_word r') as [u rest]; cbn [snd] in *;
+        intros Hx; right; right; exact (H Hx).
+    + destruct (c =? 36).
+      * destruct r as [|d r']; [cbn [snd]; tauto|]. cbn [length] in Hn.
+        destruct (d =? 36); [|cbn [snd]; tauto].
+        pose proof (IH r' ltac:(lia)) as H. destruct (lex_word r') as [u rest]; cbn [snd] in *.
+        intros Hx; right; right; exact (H Hx).
+      * destruct (is_word_char c); [|cbn [snd]; tauto].
+        pose proof (IH r ltac:(lia)) as H. destruct (lex_word r) as [u rest]; cbn [snd] in *.
+        intros Hx; right; exact (H Hx).
+Qed.
+
+Lemma lex_word_in x l : In x (snd (lex_word l)) -> In x l.
+Proof. apply (lex_word_in_aux x (length l)). lia. Qed.
+
+Lemma head_is_in l c : head_is l c = true -> In c l.
+Proof. destruct l as [|x r]; [discriminate|]. cbn [head_is]. intros H. apply N.eqb_eq in H. left. exact H. Qed.
+
+(* a file without any ':' that is not blank: some error is reported, whatever else the file contains *)
+Theorem md_no_colon_error : forall ign data,
+  ~ In 58 data -> skip_ws data <> [] -> md_has_error (md_parse ign data) = true.
+Proof.
+  intros ign data Hno Hne.
+  destruct (lex_word (skip_ws data)) as [u c2] eqn:El.
+  destruct (progressed (skip_ws data) c2) eqn:Hp.
+  - apply (md_has_error_in _ 2 (pos_of (length data) (skip_nnws c2))).
+    apply (md_error_reported ign data u c2 El Hp).
+    destruct (head_is (skip_nnws c2) 58) eqn:Hh; [|reflexivity].
+    exfalso. apply Hno. apply skip_ws_in, lex_word_in. rewrite El. cbn [snd].
+    apply skip_nnws_in, head_is_in. exact Hh.
+  - apply (md_has_error_in _ 1 (pos_of (length data) c2)).
+    unfold md_parse. cbn [rules_loop]. destruct (skip_ws data) as [|x t]; [congruence|].
+    rewrite El, Hp. cbn [negb]. left. reflexivity.
+Qed.
+
+(* the rule head "target:" followed by anything: the events of the prerequisites loop on what follows *)
+Lemma rules_loop_target F ign dlen t (Z : bytes) :
+  wf_target t = true ->
+  rules_loop (S F) ign dlen (md_escape t ++ 58 :: Z) =
+  RuleStart (md_escape t) t ::
+    fst (deps_loop (S (length Z)) dlen Z) ++
+    RuleEnd :: (if ign then [] else rules_loop F ign dlen (snd (deps_loop (S (length Z)) dlen Z))).
+Proof.
+  intros Ht. apply wf_target_spec in Ht. destruct Ht as [Hne Hok].
+  set (T := 58 :: Z).
+  cbn [rules_loop].
+  destruct t as [|c t']; [congruence|].
+  assert (Hc : path_byte_ok c = true).
+  { cbn [forallb] in Hok. apply andb_true_iff in Hok. destruct Hok as [Hok _].
+    unfold target_byte_ok in Hok. apply andb_true_iff in Hok. tauto. }
+  destruct (esc_head c (md_escape t' ++ T) Hc) as [x [y [Ex [Hx32 [Hx9 [Hx10 [Hx13 [Hx35 Hx92]]]]]]]].
+  assert (Ext : md_escape (c :: t') ++ T = x :: y).
+  { rewrite md_escape_cons, <- app_assoc. exact Ex. }
+  replace (skip_ws (md_escape (c :: t') ++ T)) with (md_escape (c :: t') ++ T)
+    by (rewrite Ext; symmetry; apply skip_ws_stop; assumption).
+  rewrite Ext at 1.
+  rewrite (lex_word_escape (c :: t') T Hok).
+  assert (ET : lex_word T = ([], T)) by reflexivity. rewrite ET. cbn [fst snd]. rewrite app_nil_r.
+  rewrite progressed_lt.
+  2:{ rewrite app_length, md_escape_cons, app_length.
+      assert (1 <= length (esc_byte c))%nat.
+      { unfold esc_byte. destruct ((c =? 32) || (c =? 35) || (c =? 92)); [cbn; lia|]. destruct (c =? 36); cbn; lia. }
+      lia. }
+  cbn [negb]. rewrite raw_of_app.
+  assert (EN : skip_nnws T = T) by reflexivity. rewrite EN.
+  unfold T at 1. cbn [head_is]. change (58 =? 58) with true. cbn [negb].
+  unfold T. cbn [tl].
+  destruct (deps_loop (S (length Z)) dlen Z) as [evs c4]. reflexivity.
+Qed.
+
+(* bytes at which no dependency word can start: NUL, ':' and a '$' that is not doubled *)
+Definition bad_word_start (x : byte) (rest : bytes) : Prop :=
+  x = 0 \/ x = 58 \/ (x = 36 /\ head_is rest 36 = false).
+
+Lemma bad_word_start_lex x rest :
+  bad_word_start x rest ->
+  skip_nnws (x :: rest) = x :: rest /\ (x =? 10) = false /\ lex_word (x :: rest) = ([], x :: rest).
+Proof.
+  intros [->|[->|[-> Hh]]]; [repeat split; reflexivity | repeat split; reflexivity |].
+  split; [reflexivity|]. split; [reflexivity|].
+  cbn [lex_word]. change (36 =? 92) with false. change (36 =? 36) with true. cbv iota.
+  destruct rest as [|d r]; [reflexivity|]. cbn [head_is] in Hh. rewrite Hh. reflexivity.
+Qed.
+
+(* a prerequisite that starts with ':' (or NUL, or a lone '$') is reported: error 3 at its position *)
+Theorem md_bad_prereq_reported : forall ign t x rest,
+  wf_target t = true -> bad_word_start x rest ->
+  In (Err 3 (N.of_nat (length (md_escape t) + 2)))
+     (md_parse ign (md_escape t ++ 58 :: 32 :: x :: rest)).
+Proof.
+  intros ign t x rest Ht Hbad. unfold md_parse.
+  rewrite (rules_loop_target _ ign _ t (32 :: x :: rest) Ht).
+  right. apply in_or_app. left.
+  destruct (bad_word_start_lex x rest Hbad) as [Hs [H10 Hl]].
+  cbn [deps_loop]. change (skip_nnws (32 :: x :: rest)) with (skip_nnws (x :: rest)).
+  rewrite Hs, H10, Hl.
+  unfold progressed. rewrite Nat.eqb_refl. cbn [negb].
+  destruct (deps_loop _ _ (skip_eol (x :: rest))) as [evs c3].
+  cbn [fst]. left. f_equal. unfold pos_of. rewrite app_length. cbn [length]. lia.
+Qed.
+
+(* ---------- non-vacuity ---------- *)
+
+(* target [o ut.o]; paths [a b] [c#d] [e$f] [g\h\] [i:j] [/k:] [.] [0x80 0xff] [quote dquote] [$] [#] [space] [backslash] *)
+Definition ex_target : bytes := [111; 32; 117; 116; 46; 111].
+Definition ex_paths : list bytes :=
+  [[97; 32; 98]; [99; 35; 100]; [101; 36; 102]; [103; 92; 104; 92]; [105; 58; 106]; [47; 107; 58]; [46]; [128; 255];
+   [39; 34]; [36]; [35]; [32]; [92]].
+
+Example md_roundtrip_instance :
+  wf_target ex_target = true /\ forallb wf_path ex_paths = true /\
+  md_write ex_target [[97; 32; 98]; [101; 36; 102]] SepLF =
+    [111; 92; 32; 117; 116; 46; 111; 58; 32; 92; 10; 32; 97; 92; 32; 98; 32; 92; 10; 32; 101; 36; 36; 102; 10] /\
+  md_deps (md_parse false (md_write ex_target ex_paths SepSpace)) = ex_paths /\
+  md_deps (md_parse false (md_write ex_target ex_paths SepLF)) = ex_paths /\
+  md_deps (md_parse false (md_write ex_target ex_paths SepCRLF)) = ex_paths.
+Proof. vm_compute. repeat split; reflexivity. Qed.
+
+Example md_multi_rule_instance :
+  let rules := [(ex_target, ex_paths, SepLF); ([116], [[112]; [113; 58]], SepSpace); ([117], [], SepCRLF)] in
+  forallb wf_rule rules = true /\
+  md_deps (md_parse false (md_write_rules rules)) = ex_paths ++ [[112]; [113; 58]] /\
+  md_deps (md_parse true (md_write_rules rules)) = ex_paths.
+Proof. vm_compute. repeat split; reflexivity. Qed.
+
+(* "a b c\n" (no colon): error 2 at offset 2;  "t: :x"  and  "t: $x": error 3 at offset 3 *)
+Example md_error_reported_instance :
+  md_parse false [97; 32; 98; 32; 99; 10] = [RuleStart [97] [97]; Err 2 2; RuleEnd] /\
+  md_parse false [116; 58; 32; 58; 120] = [RuleStart [116] [116]; Err 3 3; RuleEnd] /\
+  md_parse false [116; 58; 32; 36; 120] = [RuleStart [116] [116]; Err 3 3; RuleEnd] /\
+  bad_word_start 36 [120] /\ ~ In 58 [97; 32; 98; 32; 99; 10] /\ skip_ws [97; 32; 98; 32; 99; 10] <> [].
+Proof.
+  repeat split; try (vm_compute; reflexivity).
+  - right. right. split; reflexivity.
+  - cbn. intros H. repeat (destruct H as [H|H]; [discriminate H|]). exact H.
+  - vm_compute. discriminate.
+Qed.
+
+(* ---------- exactness of the well-formedness conditions: without each of them the round trip fails ---------- *)
+
+(* path conditions (target "t") *)
+Example wf_path_needs_nonempty :
+  wf_path [] = false /\ md_deps (md_parse false (md_write [116] [[]] SepSpace)) <> [[]].
+Proof. vm_compute. split; [reflexivity | discriminate]. Qed.
+
+Example wf_path_needs_no_nul :     (* "p\0q": "p", then error 3, the rest of the line is dropped *)
+  wf_path [112; 0; 113] = false /\ md_deps (md_parse false (md_write [116] [[112; 0; 113]] SepSpace)) <> [[112; 0; 113]].
+Proof. vm_compute. split; [reflexivity | discriminate]. Qed.
+
+Example wf_path_needs_no_tab :     (* "p\tq" is read as two words *)
+  wf_path [112; 9; 113] = false /\ md_deps (md_parse false (md_write [116] [[112; 9; 113]] SepSpace)) = [[112]; [113]].
+Proof. vm_compute. split; reflexivity. Qed.
+
+Example wf_path_needs_no_cr :      (* "p\rq" is read as two words *)
+  wf_path [112; 13; 113] = false /\ md_deps (md_parse false (md_write [116] [[112; 13; 113]] SepSpace)) = [[112]; [113]].
+Proof. vm_compute. split; reflexivity. Qed.
+
+Example wf_path_needs_no_lf :      (* "p\nq": the newline ends the rule, "q" starts a rule without ':' *)
+  wf_path [112; 10; 113] = false /\ md_deps (md_parse false (md_write [116] [[112; 10; 113]] SepSpace)) = [[112]].
+Proof. vm_compute. split; reflexivity. Qed.
+
+Example wf_path_needs_no_leading_colon :   (* ":p" then "q": error 3 and the whole line is dropped *)
+  wf_path [58; 112] = false /\ md_deps (md_parse false (md_write [116] [[58; 112]; [113]] SepSpace)) = [].
+Proof. vm_compute. split; reflexivity. Qed.
+
+(* target conditions (path "p") *)
+Example wf_target_needs_nonempty :
+  wf_target [] = false /\ md_deps (md_parse false (md_write [] [[112]] SepSpace)) = [].
+Proof. vm_compute. split; reflexivity. Qed.
+
+Example wf_target_needs_no_colon :          (* "c:x: p": the target's tail "x:" is read as a prerequisite *)
+  wf_target [99; 58; 120] = false /\ md_deps (md_parse false (md_write [99; 58; 120] [[112]] SepSpace)) = [[120; 58]; [112]].
+Proof. vm_compute. split; reflexivity. Qed.
+
+Example wf_target_needs_no_nul :
+  wf_target [116; 0] = false /\ md_deps (md_parse false (md_write [116; 0] [[112]] SepSpace)) = [].
+Proof. vm_compute. split; reflexivity. Qed.
+
+Example wf_target_needs_no_tab :
+  wf_target [116; 9; 117] = false /\ md_deps (md_parse false (md_write [116; 9; 117] [[112]] SepSpace)) = [].
+Proof. vm_compute. split; reflexivity. Qed.
+
+Example wf_target_needs_no_cr :
+  wf_target [116; 13; 117] = false /\ md_deps (md_parse false (md_write [116; 13; 117] [[112]] SepSpace)) = [].
+Proof. vm_compute. split; reflexivity. Qed.
+
+Example wf_target_needs_no_lf :
+  wf_target [116; 10] = false /\ md_deps (md_parse false (md_write [116; 10] [[112]] SepSpace)) = [].
+Proof. vm_compute. split; reflexivity. Qed.
+
+(* what is NOT in the documented escaping and therefore not recovered when written raw: an unescaped ' ' splits
+   the word, an unescaped '#' survives, an undoubled '$' is an error *)
+Example raw_space_splits : md_deps (md_parse false [116; 58; 32; 97; 32; 98; 10]) = [[97]; [98]].
+Proof. vm_compute. reflexivity. Qed.
+Example raw_dollar_is_error : md_parse false [116; 58; 32; 97; 36; 98; 10] = [RuleStart [116] [116]; Dep [97] [97]; Err 3 4; RuleEnd].
+Proof. vm_compute. reflexivity. Qed.
